@@ -68,9 +68,17 @@ SIM_CHECKS = {
             'two build variants run the same schedules: "plain" hands loop() the unwrapped 64-bit count; "plain32" compiles '
             'the four clock headers with `long` read as `int`, so loop() does the target\'s 32-bit arithmetic and the '
             'counter really wraps at 2^32 (boot values are drawn to put the wrap inside the run)',
-            'lower bounds on request spacing use the smallest admissible back-off period, the liveness bound the largest',
+            'lower bounds on request spacing use the smallest admissible back-off period (an initial period above the sync '
+            'period may be clamped at once or after the first failure)',
+            'liveness ("within a bounded time", no schedule named): the next request must be out within one largest period '
+            '(max(initial, sync)) after the failure was noticed / the answer applied / the boot, plus 6 loop() calls once '
+            'simulated time has moved past that instant; after faults stop, a successful sync within time-out + largest '
+            'period + 1 s. Longer waits than the shipped schedule (early saturation, back-off counted from the failure) '
+            'are accepted, shorter ones are not',
             'a response that is ready in the same call in which the timeout elapses may be applied or dropped',
-            'liveness is counted in loop() calls after the model deadline (2 allowed, the code needs 1)',
+            'one third of the runs (probe=0) never read the clock around loop(): the harness must not keep the clock alive '
+            'on behalf of a loop() that forgot to; in those runs "applied immediately" is observed at the next GET',
+            'a read with no request outstanding returns the error value (there is no datagram to read)',
         ],
     },
     'C08': {
